@@ -11,7 +11,7 @@ LEVEL = "exploration"
 TECHNIQUE = "runtime monitor: lock-step reference model (sorted set) over generated + bounded-exhaustive operation histories"
 RULE = ("cases i < N_exh enumerate ALL operation histories of length <= L over 4 events (2 times, prios 5/5/9/5) "
         "with alphabet add(k)/remove(k)/pop/clear; the rest are seeded random histories of 5-60 ops over 3-14 "
-        "events with 1-4 distinct times, int/float/mixed/Duration(mixed units) time types; non-trivial = at least "
+        "events with 1-4 distinct times, int/float/mixed/Duration(mixed units)/huge-int (> 2^53) time types; non-trivial = at least "
         "one successful removal of a non-minimum (interior) event followed by >= 2 pop_first; distinct = distinct "
         "canonical (events, ops) hash")
 ASSUMPTIONS = ["an event is never added while it is already pending (the statement speaks of a set)",
@@ -53,10 +53,14 @@ def gen_case(rng, tier, i):
             ops.append(list(ALPHA[j % len(ALPHA)]))
             j //= len(ALPHA)
         return {"kind": "int", "events": [list(e) for e in EXH_EVENTS], "ops": ops, "fam": "exh"}
-    kind = rng.choice(["int", "float", "mixed", "duration", "float", "int"])
+    kind = rng.choice(["int", "float", "mixed", "duration", "float", "int", "bigint"])
     nev = rng.randint(3, 14)
     ntimes = rng.randint(1, 4)
-    if kind == "int":
+    if kind == "bigint":
+        # integer times beyond 2**53 (e.g. nanosecond time stamps): neighbours collapse when converted to float
+        b = rng.choice([2 ** 53, 2 ** 60, 17 * 10 ** 17])
+        times = [b + k for k in rng.sample(range(0, 6), ntimes)]
+    elif kind == "int":
         times = rng.sample(range(0, 30), ntimes)
     elif kind == "float":
         times = [rng.choice([0.0, 0.5, 1.0, 1.5, 2.25, 1e-9, 1e9, 0.1 + 0.2, 0.3]) for _ in range(ntimes)]
@@ -99,7 +103,7 @@ def gen_case(rng, tier, i):
 
 
 def _num(kind, t):
-    return float(_mk_time(kind, t))
+    return t if kind in ("int", "bigint", "float", "mixed") else float(_mk_time(kind, t))
 
 
 class _T:
@@ -119,7 +123,8 @@ def run_case(case, ctx):
     from pydsol.core.simevent import SimEvent
     tgt = _T()
     evs = [SimEvent(_mk_time(case["kind"], t), tgt, "m", p) for t, p in case["events"]]
-    key = {k: (float(e.time), -e.priority, k) for k, e in enumerate(evs)}
+    # exact keys: Python compares int with float exactly; a Duration orders by its SI value
+    key = {k: ((e.time if type(e.time) in (int, float) else float(e.time)), -e.priority, k) for k, e in enumerate(evs)}
     idx = {id(e): k for k, e in enumerate(evs)}
     real = EventListHeap()
     model = set()
